@@ -457,21 +457,22 @@ func (p *Parser) getUsedFuncs(startFunc string) []string {
 	startFunc = strings.TrimSpace(startFunc)
 
 	if usedFuncsTemp, exists := p.usedFuncs[startFunc]; exists {
-		if len(startFunc) > 0 && !slices.Contains(usedFuncs, startFunc) {
-			usedFuncs = append(usedFuncs, startFunc)
-		}
-
-		for _, usedFuncTemp := range usedFuncsTemp {
-			if !slices.Contains(usedFuncs, usedFuncTemp) {
-				usedFuncs = append(usedFuncs, usedFuncTemp)
-			}
-			usedSubFuncs := p.getUsedFuncs(usedFuncTemp)
-
-			for _, usedSubFunc := range usedSubFuncs {
-				if !slices.Contains(usedFuncs, usedSubFunc) {
-					usedFuncs = append(usedFuncs, usedSubFunc)
+		add := func(funcs []string) {
+			for _, usedFuncTemp := range funcs {
+				if !slices.Contains(usedFuncs, usedFuncTemp) {
+					usedFuncs = append(usedFuncs, usedFuncTemp)
 				}
 			}
+		}
+
+		if len(startFunc) > 0 {
+			usedFuncs = append(usedFuncs, startFunc)
+		}
+		add(usedFuncsTemp)
+
+		// Work list: every collected function is looked at exactly once, however many call paths lead to it.
+		for i := 0; i < len(usedFuncs); i++ {
+			add(p.usedFuncs[usedFuncs[i]])
 		}
 	}
 	return usedFuncs
